@@ -1,4 +1,4 @@
-import Pyrealb.Lemmas.ClauseEnDepNF
+import Pyrealb.Lemmas.ClauseEnDepPP
 namespace Pyrealb.ClauseEn
 set_option linter.unusedSimpArgs false
 
@@ -120,15 +120,12 @@ theorem dep_nf_plain (ty : Typ) (sj : ArgTok) (obj : Option ArgTok) (ql : List (
           fi_obj_ql_words, fi_obj_ql_words_cons, fi_pre_ql_nil, fi_pre_ql_dPre, removeAt_words, getD_words, getElem?_words,
           Gen.ClauseEn.depHasPrepositionList, any_pp_words, findIdx_obj_pps, dObj, findPPDep, findPPDep_words, lastIsFirst, getLast?_cons_concat]
       case woi | wai | whe | whn =>
-        cases ql with
-        | nil => cases obj <;> by_cases hal : aloneDep last.lemmaName = true <;> simp [hal, linDepPlain, frontD, headAlone, finishDep, plainSt, processIntDep, moveObjectDep, DTerm.lemmaName,
-          pure, Except.pure, bind, Except.bind, dep_main, List.filter_append, List.filter_cons, setAt,
-          mainToks_append, mt_subj, mt_dSubj, mt_dObj, mt_dPre, mt_pre_word, mt_pre_arg, mt_dIt, mt_comp_arg, mainToks_nil,
-          mainToks_optObj, mainToks_pps, mainToks_pres, agrDepPlain, findIdx, fi_pre_obj_ql, fi_pre_obj_ql_w,
-          removeAt, removeAt_obj_ql, getD_obj_ql, objHuman, optL_some, optL_none, objToks_some, objToks_none, ppToks,
-          fi_obj_ql_words, fi_obj_ql_words_cons, fi_pre_ql_nil, fi_pre_ql_dPre, removeAt_words, getD_words, getElem?_words,
-          Gen.ClauseEn.depHasPrepositionList, any_pp_words, findIdx_obj_pps, dObj, findPPDep, findPPDep_words, lastIsFirst, getLast?_cons_concat]
-        | cons pa R => cases obj <;> simp [linDepPlain, frontD, headAlone, finishDep, plainSt, processIntDep, moveObjectDep, DTerm.lemmaName,
+        simp only [finishDep, linDepPlain]
+        rw [processIntDep_ppq _ _ rfl]
+        simp only [plainSt]
+        rw [dropPP_plain]
+        by_cases hal : aloneDep last.lemmaName = true <;>
+        simp [hal, linDepPlain, frontD, headAlone, finishDep, plainSt, processIntDep, moveObjectDep, DTerm.lemmaName,
           pure, Except.pure, bind, Except.bind, dep_main, List.filter_append, List.filter_cons, setAt,
           mainToks_append, mt_subj, mt_dSubj, mt_dObj, mt_dPre, mt_pre_word, mt_pre_arg, mt_dIt, mt_comp_arg, mainToks_nil,
           mainToks_optObj, mainToks_pps, mainToks_pres, agrDepPlain, findIdx, fi_pre_obj_ql, fi_pre_obj_ql_w,
@@ -195,15 +192,11 @@ theorem dep_nf_plain (ty : Typ) (sj : ArgTok) (obj : Option ArgTok) (ql : List (
           fi_obj_ql_words, fi_obj_ql_words_cons, fi_pre_ql_nil, fi_pre_ql_dPre, removeAt_words, getD_words, getElem?_words,
           Gen.ClauseEn.depHasPrepositionList, any_pp_words, findIdx_obj_pps, dObj, findPPDep, findPPDep_words, lastIsFirst, getLast?_cons_concat]
       case woi | wai | whe | whn =>
-        cases ql with
-        | nil => cases obj <;> simp [linDepPlain, frontD, headAlone, finishDep, plainSt, processIntDep, moveObjectDep, DTerm.lemmaName,
-          pure, Except.pure, bind, Except.bind, dep_main, List.filter_append, List.filter_cons, setAt,
-          mainToks_append, mt_subj, mt_dSubj, mt_dObj, mt_dPre, mt_pre_word, mt_pre_arg, mt_dIt, mt_comp_arg, mainToks_nil,
-          mainToks_optObj, mainToks_pps, mainToks_pres, agrDepPlain, findIdx, fi_pre_obj_ql, fi_pre_obj_ql_w,
-          removeAt, removeAt_obj_ql, getD_obj_ql, objHuman, optL_some, optL_none, objToks_some, objToks_none, ppToks,
-          fi_obj_ql_words, fi_obj_ql_words_cons, fi_pre_ql_nil, fi_pre_ql_dPre, removeAt_words, getD_words, getElem?_words,
-          Gen.ClauseEn.depHasPrepositionList, any_pp_words, findIdx_obj_pps, dObj, findPPDep, findPPDep_words, lastIsFirst, getLast?_cons_concat, any_pp_words _ hw', dPre]
-        | cons pa R => cases obj <;> simp [linDepPlain, frontD, headAlone, finishDep, plainSt, processIntDep, moveObjectDep, DTerm.lemmaName,
+        simp only [finishDep, linDepPlain]
+        rw [processIntDep_ppq _ _ rfl]
+        simp only [plainSt]
+        rw [dropPP_plain]
+        simp [linDepPlain, frontD, headAlone, finishDep, plainSt, processIntDep, moveObjectDep, DTerm.lemmaName,
           pure, Except.pure, bind, Except.bind, dep_main, List.filter_append, List.filter_cons, setAt,
           mainToks_append, mt_subj, mt_dSubj, mt_dObj, mt_dPre, mt_pre_word, mt_pre_arg, mt_dIt, mt_comp_arg, mainToks_nil,
           mainToks_optObj, mainToks_pps, mainToks_pres, agrDepPlain, findIdx, fi_pre_obj_ql, fi_pre_obj_ql_w,
